@@ -484,7 +484,7 @@ func r16Sentinels(c *an.Ctx) {
 				return true
 			}
 			n++
-			arg := an.Src(c.Fset, call.Args[2])
+			arg := an.Src(c.Fset, an.ResolveLocal(info, f.Decl.Body, call.Args[2]))
 			good := strings.HasSuffix(arg, ".URL.Path") || strings.HasSuffix(arg, ".URL.RawPath") || strings.HasSuffix(arg, ".URL.EscapedPath()")
 			_ = info
 			c.Check(good, "R16.9", f.Name+"#Match("+arg+")", call.Pos(), "the routing probe matches the request path", "the routing probe matches "+arg+", which is not the bare path of the request (a query string becomes part of the last path value and literal-ending patterns stop matching)")
